@@ -31,6 +31,13 @@ pub fn pipe_expressible(scn: &Scenario) -> bool {
 }
 
 pub fn real_run(scn: &Scenario, bin: &str, dir: &str, tag: &str, timeout: Duration) -> Option<RealOut> {
+    real_run_env(scn, bin, dir, tag, timeout, false)
+}
+
+/// `other_env`: the same file and input in another process environment - every variable removed,
+/// then a narrow terminal, another locale and time zone, no HOME, no PATH; started from the
+/// directory of the file with a relative path instead of from here with an absolute one
+pub fn real_run_env(scn: &Scenario, bin: &str, dir: &str, tag: &str, timeout: Duration, other_env: bool) -> Option<RealOut> {
     let _ = std::fs::create_dir_all(dir);
     let path = format!("{}/{}.s", dir, tag);
     std::fs::write(&path, &scn.source.0).ok()?;
@@ -38,7 +45,21 @@ pub fn real_run(scn: &Scenario, bin: &str, dir: &str, tag: &str, timeout: Durati
     if scn.interpreted {
         cmd.arg("-i");
     }
-    cmd.arg(&path).stdin(Stdio::piped()).stdout(Stdio::piped()).stderr(Stdio::piped());
+    if other_env {
+        cmd.env_clear();
+        for (k, v) in [
+            ("COLUMNS", "40"), ("LINES", "10"), ("TERM", "dumb"), ("NO_COLOR", "1"), ("CLICOLOR_FORCE", "1"), ("LANG", "tr_TR.UTF-8"), ("LC_ALL", "tr_TR.UTF-8"),
+            ("TZ", "Pacific/Kiritimati"), ("HOME", "/nonexistent"), ("PATH", "/nonexistent"), ("USER", "nobody"), ("TMPDIR", "/nonexistent"), ("RUST_LOG", "trace"),
+            ("RUST_MIN_STACK", "8388608"),
+        ] {
+            cmd.env(k, v);
+        }
+        cmd.current_dir(dir);
+        cmd.arg(format!("./{}.s", tag));
+    } else {
+        cmd.arg(&path);
+    }
+    cmd.stdin(Stdio::piped()).stdout(Stdio::piped()).stderr(Stdio::piped());
     let mut child = cmd.spawn().ok()?;
     let mut stdin = child.stdin.take()?;
     let bytes = scn.stdin.bytes.0.clone();
@@ -134,6 +155,9 @@ pub fn compare(h: &History, r: &RealOut) -> Option<Result<(), String>> {
 }
 
 pub struct Sweep {
+    /// C19: runs whose output depends on the process environment (variables, current directory)
+    pub env_dependent: Vec<(u64, String)>,
+    pub env_pairs: u64,
     /// process-level cases (C15 only) executed by the real binary
     pub proc_cases: u64,
     /// runs which the real binary ended by aborting (panic status 101 or a signal) while the
@@ -152,7 +176,7 @@ pub struct Sweep {
 pub fn sweep(prop: &str, seed: u64, n: u64, stride: u64, threads: usize, dir: &str) -> Sweep {
     let bin = match real_bin() {
         Some(b) => b,
-        None => return Sweep { proc_cases: 0, real_aborts: vec![], not_reproducible: vec![], sessions: 0, compared: 0, not_comparable: 0, mismatches: vec![] },
+        None => return Sweep { env_dependent: vec![], env_pairs: 0, proc_cases: 0, real_aborts: vec![], not_reproducible: vec![], sessions: 0, compared: 0, not_comparable: 0, mismatches: vec![] },
     };
     let mut handles = Vec::new();
     for t in 0..threads {
@@ -162,7 +186,7 @@ pub fn sweep(prop: &str, seed: u64, n: u64, stride: u64, threads: usize, dir: &s
         let h = std::thread::Builder::new()
             .stack_size(64 << 20)
             .spawn(move || {
-                let mut s = Sweep { proc_cases: 0, real_aborts: vec![], not_reproducible: vec![], sessions: 0, compared: 0, not_comparable: 0, mismatches: vec![] };
+                let mut s = Sweep { env_dependent: vec![], env_pairs: 0, proc_cases: 0, real_aborts: vec![], not_reproducible: vec![], sessions: 0, compared: 0, not_comparable: 0, mismatches: vec![] };
                 let mut k = t as u64;
                 while k < n {
                     let run = k * stride.max(1);
@@ -185,6 +209,31 @@ pub fn sweep(prop: &str, seed: u64, n: u64, stride: u64, threads: usize, dir: &s
                             continue;
                         }
                     };
+                    if prop == "C19" && !r.timed_out {
+                        // the same file and input in another process environment
+                        if let Some(r2) = real_run_env(&case.scn, &bin, &dir, &format!("e{}-{}", t, run), Duration::from_secs(20), true) {
+                            s.env_pairs += 1;
+                            let same = |a: &RealOut, b: &RealOut| a.stdout == b.stdout && a.stderr == b.stderr && a.code == b.code;
+                            if !r2.timed_out && !same(&r, &r2) {
+                                // once more each, so that a run that differs from itself is not blamed on the environment
+                                let r1b = real_run_env(&case.scn, &bin, &dir, &format!("e{}-{}b", t, run), Duration::from_secs(20), false);
+                                let r2b = real_run_env(&case.scn, &bin, &dir, &format!("e{}-{}c", t, run), Duration::from_secs(20), true);
+                                if let (Some(r1b), Some(r2b)) = (r1b, r2b) {
+                                    if same(&r, &r1b) && same(&r2, &r2b) {
+                                        let p = r.stdout.iter().zip(r2.stdout.iter()).position(|(a, b)| a != b).unwrap_or(r.stdout.len().min(r2.stdout.len()));
+                                        let ctx = |b: &[u8]| String::from_utf8_lossy(&b[p.saturating_sub(30).min(b.len())..(p + 50).min(b.len())]).into_owned();
+                                        s.env_dependent.push((run, format!(
+                                            "the real binary printed different things for the same file and input in two process environments (all variables removed, COLUMNS=40, another locale, time zone and directory), each twice with the same result: stdout differs at byte {}: {:?} / {:?}; status {:?} / {:?}",
+                                            p, ctx(&r.stdout), ctx(&r2.stdout), r.code, r2.code
+                                        )));
+                                    } else {
+                                        s.not_reproducible.push((run, "the real binary, given the same file and the same input twice in the same environment, printed different things: not reproducible".to_owned()));
+                                    }
+                                }
+                                continue;
+                            }
+                        }
+                    }
                     match compare(&hist, &r) {
                         None => s.not_comparable += 1,
                         Some(Ok(())) => s.compared += 1,
@@ -231,7 +280,7 @@ pub fn sweep(prop: &str, seed: u64, n: u64, stride: u64, threads: usize, dir: &s
             .unwrap();
         handles.push(h);
     }
-    let mut total = Sweep { proc_cases: 0, real_aborts: vec![], not_reproducible: vec![], sessions: 0, compared: 0, not_comparable: 0, mismatches: vec![] };
+    let mut total = Sweep { env_dependent: vec![], env_pairs: 0, proc_cases: 0, real_aborts: vec![], not_reproducible: vec![], sessions: 0, compared: 0, not_comparable: 0, mismatches: vec![] };
     for h in handles {
         if let Ok(s) = h.join() {
             total.sessions += s.sessions;
@@ -240,6 +289,8 @@ pub fn sweep(prop: &str, seed: u64, n: u64, stride: u64, threads: usize, dir: &s
             total.mismatches.extend(s.mismatches);
             total.not_reproducible.extend(s.not_reproducible);
             total.real_aborts.extend(s.real_aborts);
+            total.env_dependent.extend(s.env_dependent);
+            total.env_pairs += s.env_pairs;
         }
     }
     total
